@@ -353,7 +353,12 @@ pub fn build(
         };
 
         let mut add_functions = |functions: &[Function]| -> anyhow::Result<()> {
-            for function in functions.iter().filter(|f| f.is_public()) {
+            // an internal (`_`-prefixed) function of the base has no wrapper to forward to,
+            // unless it is itself a forwarder that got its name from a `_`-prefixed base field
+            for function in functions
+                .iter()
+                .filter(|f| f.is_public() && (!f.is_internal() || f.body.is_field()))
+            {
                 let mut function = function.clone();
                 let original_name = function.name.clone();
                 if associated_functions_used_names.contains(&original_name) {
